@@ -31,7 +31,10 @@ impl Tracked {
 
 impl Drop for Tracked {
     fn drop(&mut self) {
-        let n = DROPS[self.0 as usize].fetch_add(1, Ordering::SeqCst) + 1;
+        if self.0 == 0x7f {
+            return; // flood values: not tracked individually
+        }
+        let n = DROPS[self.0 as usize].fetch_add(1, Ordering::SeqCst).wrapping_add(1);
         sched::log("value_drop", self.0 as u64, n as u64);
     }
 }
@@ -65,6 +68,10 @@ pub struct P {
     pub stale: bool,
     pub spurious: u32,
     pub prop: &'static str,
+    /// threads that first receive `.0` values and then send `.1`
+    pub refillers: Vec<(u32, u32)>,
+    /// one more thread that sends this many values into the (full) channel, all of which are discarded
+    pub flood: u32,
 }
 
 fn do_send(ch: &Channel<Tracked>, id: u32) {
@@ -138,6 +145,38 @@ pub fn build(p: P) -> Scenario<Arc<CS>> {
             max_nest: p.max_nest,
         });
     }
+    for (ri, &(nr, ns)) in p.refillers.iter().enumerate() {
+        threads.push(ThreadSpec {
+            name: "RF",
+            body: Box::new(move |s: &Arc<CS>| {
+                for _ in 0..nr {
+                    do_recv(&s.ch);
+                }
+                for q in 0..ns {
+                    do_send(&s.ch, 0x60 + (ri as u32) * 8 + q);
+                }
+            }),
+            nest_signals: vec![],
+            max_nest: 0,
+        });
+    }
+    if p.flood > 0 {
+        let n = p.flood;
+        threads.push(ThreadSpec {
+            name: "FL",
+            body: Box::new(move |s: &Arc<CS>| {
+                for _ in 0..n {
+                    // one tracked id for all of them: only the five values parked before matter
+                    s.ch.send(Tracked(0x7f));
+                }
+                sched::log("flood_done", n as u64, 0);
+            }),
+            nest_signals: vec![],
+            max_nest: 0,
+        });
+    }
+    let flood = p.flood;
+    let pp_prop = p.prop;
     let prop = p.prop;
     let pp_name = p.name;
     let finish = move |s: Arc<CS>, e: &mut Exec| -> Result<u64, String> {
@@ -146,6 +185,37 @@ pub fn build(p: P) -> Scenario<Arc<CS>> {
         let mut drain_panic: Option<String> = None;
         // scenarios named *_nodrain drop the channel with whatever is still inside
         let nodrain = pp_name.ends_with("_nodrain");
+        if flood > 0 {
+            // the five values parked before the flood, in order, and nothing else
+            let mut got: Vec<u64> = Vec::new();
+            loop {
+                let r = std::panic::catch_unwind(std::panic::AssertUnwindSafe(|| s.ch.recv()));
+                match r {
+                    Ok(Some(t)) => {
+                        got.push(t.0 as u64);
+                        if got.len() > 8 {
+                            break;
+                        }
+                    }
+                    Ok(None) => break,
+                    Err(_) => return Err(format!("C08: recv panicked after {} sends into a full channel", flood)),
+                }
+            }
+            let want: Vec<u64> = (0..5).map(|k| 0x40 + k).collect();
+            let sent = e.log.iter().find(|ev| ev.tag == "flood_done").map_or("fewer than".to_string(), |_| "all".to_string());
+            let content = if got != want {
+                Some(format!("C06: after {} {} sends into a full channel (each must be discarded) the channel holds {:x?} instead of the five values parked before ({:x?})", sent, flood, got, want))
+            } else {
+                None
+            };
+            let panicked = if e.panics.is_empty() { None } else { Some(format!("C08: channel operation panicked: {:?}", e.panics)) };
+            // each check reports its own oracle first
+            let (first, second) = if pp_prop == "C08" { (panicked, content) } else { (content, panicked) };
+            if let Some(m) = first.or(second) {
+                return Err(m);
+            }
+            return Ok(flood as u64);
+        }
         loop {
             if nodrain {
                 break;
@@ -204,7 +274,7 @@ pub fn build(p: P) -> Scenario<Arc<CS>> {
     };
     Scenario {
         name: p.name.to_string(),
-        opts: Opts { stale_reads: p.stale, stale_depth: 3, max_spurious: p.spurious, horizon: 20_000, log_ops: false, log_handler_ops: false, reduce: false, no_discipline: false, nest_value_t1: 0, post_points: true, no_race_check: p.prop == "C08", start_points: false, endurance: 0 },
+        opts: Opts { stale_reads: p.stale, stale_depth: 3, max_spurious: p.spurious, horizon: if p.flood > 0 { 40 * p.flood as u64 + 20_000 } else { 20_000 }, log_ops: false, log_handler_ops: false, reduce: false, no_discipline: false, nest_value_t1: 0, post_points: true, no_race_check: p.prop == "C08", start_points: false, endurance: 0 },
         signals: vec![libc::SIGUSR1],
         setup: Box::new(setup),
         threads,
@@ -445,6 +515,8 @@ pub fn scenarios(prop: &str, tier: Tier) -> Vec<Item> {
         _ => "C08",
     };
     let p = |name, pre, producers: &[u32], consumers: &[u32], nest_on: &[usize], max_nest, stale, spurious| P {
+        refillers: vec![],
+        flood: 0,
         name,
         pre,
         producers: producers.to_vec(),
@@ -481,6 +553,16 @@ pub fn scenarios(prop: &str, tier: Tier) -> Vec<Item> {
     for (name, k) in [("full5_c2_p1", 0u32), ("full5_rot2_c2_p1", 2)] {
         v.push(item(build(p(name, (k, 5), &[1], &[1, 1], &[], 0, false, 0)), Some(if q { 3 } else { 4 }), "completely full channel (no free slot queued; fresh and rotated, so that different slot numbers meet), two consumers return their slots at the same time, then a producer reuses one"));
     }
+    // a send that found the channel full is overtaken by a complete drain and refill
+    let mut pr = p("full5_p1_vs_drain_and_refill", (0, 5), &[1], &[], &[], 0, false, 0);
+    pr.refillers = vec![(5, 5)];
+    v.push(item(build(pr), Some(3), "full channel: one send vs a thread that receives all five values and sends five new ones"));
+    // a long history: 70000 sends into a full channel (counters that wrap, positions that drift)
+    let mut pf = p("full5_flood_70000", (0, 5), &[], &[], &[], 0, false, 0);
+    pf.flood = 70_000;
+    v.push(item(build(pf), Some(0), "70000 sends into a full channel, every one discarded: afterwards the channel still holds exactly the five values parked before; one schedule"));
+    // compare_exchange_weak may fail spuriously any number of times in a row
+    v.push(item(build(p("p1x1_spurious17", (1, 0), &[1], &[], &[], 0, false, 17)), None, "one send with up to 17 spurious failures of its weak compare-exchanges, in every combination"));
     if !q {
         v.push(item(build(p("p2x2_c1x3_weak", (2, 0), &[2, 2], &[3], &[], 0, true, 1)), Some(3), "2x2 sends vs 3 recvs"));
         v.push(item(build(p("p1x3_c1x3_rot4", (4, 1), &[3], &[3], &[2], 1, true, 0)), Some(3), "3 sends vs 3 recvs from rotated k=4 start with nested send in consumer"));
